@@ -1284,7 +1284,7 @@ class Exec:
             if isinstance(r, Enter):
                 if r.then is not None:
                     raise NotEncoded('nested continuation')
-                return Enter(r.func, r.args, then)
+                return Enter(r.func, r.args, then, r.subst)
             if isinstance(r, list) and all(len(a) < 3 or a[2] is None for a in r):
                 out = []
                 for a in r:
@@ -1394,6 +1394,8 @@ class Exec:
             self_ty, trait = m.group(1), m.group(2)
         sb = base_type(self_ty)
         out = []
+        if trait is not None and re.match(r"^&*(?:'\w+ )?(?:mut )?(std|core|alloc)::", self_ty) and '::' not in trait.split('<')[0]:
+            return None       # a std trait on a std type: never an impl of this crate (same-named crate types notwithstanding)
         for name in prog.names():
             if not name.endswith('>::' + meth) and not name.endswith('::' + meth):
                 continue
